@@ -11,8 +11,9 @@ Trace == ndJsonDeserialize(IOEnv.TRACE_FILE)
 
 TraceInit == Init /\ l = 1
 
-Reset == /\ cstate' = "notauth" /\ mbox' = NoMbox /\ cmds' = <<>> /\ alive' = TRUE
-         /\ comp' = {} /\ uni' = <<>>
+Reset(g) == /\ greet' = g /\ cstate' = IF g = "PREAUTH" THEN "auth" ELSE "notauth"
+            /\ mbox' = NoMbox /\ cmds' = <<>> /\ alive' = TRUE
+            /\ comp' = {} /\ uni' = <<>>
 
 CompMatches(o) ==
   /\ {o.comp[x].id : x \in 1..Len(o.comp)} = comp'
@@ -35,19 +36,19 @@ TraceNext ==
   /\ l <= Len(Trace)
   /\ l' = l + 1
   /\ LET r == Trace[l] IN
-       \/ r.ev = "Reset" /\ Reset
+       \/ r.ev = "Reset" /\ Reset(r.s1)
        \/ r.ev = "Submit" /\ Submit(r.s1, r.s2) /\ Matches(r.obs)
        \/ r.ev = "Exists" /\ Exists(r.n1) /\ Matches(r.obs)
        \/ r.ev = "Expunge" /\ Expunge(r.n1) /\ Matches(r.obs)
        \/ r.ev = "Search" /\ Search(r.n1) /\ Matches(r.obs)
        \/ r.ev = "Flags" /\ Flags(r.s1) /\ Matches(r.obs)
        \/ r.ev = "PermFlags" /\ PermFlags(r.s1) /\ Matches(r.obs)
-       \/ r.ev = "Fetch" /\ Fetch(r.n1, r.s1) /\ Matches(r.obs)
+       \/ r.ev = "Fetch" /\ Fetch(r.n1, r.s1, r.n2) /\ Matches(r.obs)
        \/ r.ev = "Status" /\ Status(r.s1, r.n1) /\ Matches(r.obs)
        \/ r.ev = "List" /\ List(r.s1) /\ Matches(r.obs)
        \/ r.ev = "Esearch" /\ Esearch(r.n2, r.n1) /\ Matches(r.obs)
        \/ r.ev = "Closed" /\ Closed /\ Matches(r.obs)
-       \/ r.ev = "Tagged" /\ Tagged(r.n1, r.s1) /\ Matches(r.obs)
+       \/ r.ev = "Tagged" /\ Tagged(r.n1, r.s1, r.n2) /\ Matches(r.obs)
        \/ r.ev = "Bye" /\ Bye /\ Matches(r.obs)
 
 TraceAccepted ==
